@@ -489,7 +489,8 @@ class dir_archive(archive):
     popitem.__doc__ = dict.popitem.__doc__
     def setdefault(self, key, *value):
         res = self.get(key, *value)
-        self.__setitem__(key, res)
+        if not self.__contains__(key): # don't rewrite an existing entry
+            self.__setitem__(key, res)
         return res
     setdefault.__doc__ = dict.setdefault.__doc__
     def update(self, adict=(), **kwds):
